@@ -119,6 +119,7 @@ func TestCheck(t *testing.T) {
 	// forward-reference modes.
 	L := run.Pick(3, 4)
 	alpha := alphabet()
+	alphas := [][]sym{alpha, alphabet2()}
 	var seqs [][]int
 	var rec func(p []int)
 	rec = func(p []int) {
@@ -133,10 +134,15 @@ func TestCheck(t *testing.T) {
 		}
 	}
 	rec(nil)
-	ev.Parallel(len(seqs)*2, ev.Workers(), func(i int) {
+	ev.Parallel(len(seqs)*2*len(alphas), ev.Workers(), func(i int) {
+		ai := i / (len(seqs) * 2)
+		i = i % (len(seqs) * 2)
 		seq := seqs[i/2]
 		noFwd := i%2 == 1
 		caseID := fmt.Sprintf("exhaustive:%v:fwd=%v", seq, !noFwd)
+		if ai > 0 {
+			caseID = fmt.Sprintf("exhaustive%d:%v:fwd=%v", ai+1, seq, !noFwd)
+		}
 		if !run.Want(caseID) {
 			return
 		}
@@ -150,8 +156,7 @@ func TestCheck(t *testing.T) {
 		id := uint64(0)
 		for _, a := range seq {
 			id++
-			spec := alpha[a](id)
-			_, probs := x.Do(spec)
+			probs := alphas[ai][a](x, id)
 			probs = append(probs, x.Compare()...)
 			if len(probs) > 0 {
 				report(run, caseID, x, probs)
@@ -247,12 +252,70 @@ func TestCheck(t *testing.T) {
 	run.Set("exhaustive_alphabet_size", len(alpha))
 	run.Set("exhaustive_max_length", L)
 	run.Assume("content-validity of generated payloads is decided by the generator's class tag (calibrated against the schema), not re-derived by the model")
-	run.Finish("seeded random histories (8-40 ops; a few of 2000 in thorough) of ADD/REPLACE/DELETE over 5 tables x 3 NIs with 3-4 keys per table, rich payloads, cross-NI group refs, 4% content-invalid ops, interleaved flushes; 1 in 4 with forward references disallowed; plus EVERY sequence of up to 3 (quick) / 4 (thorough) operations over a 15-symbol alphabet (ADD with two payloads, REPLACE with two payloads, DELETE, for next-hop 1, group 1 and one IPv4 prefix) in both forward-reference modes - exhaustive for that bounded space; plus hand-over scripts over real Modify sessions (a primary leaves operations held, another session becomes primary with an equal or higher id and programs on; full state vs model after every batch). Non-trivial = history leaves entries or held operations; distinct = by full history text", 100, false)
+	run.Finish("seeded random histories (8-40 ops; a few of 2000 in thorough) of ADD/REPLACE/DELETE over 5 tables x 3 NIs with 3-4 keys per table, rich payloads, cross-NI group refs, 4% content-invalid ops, interleaved flushes; 1 in 4 with forward references disallowed; plus EVERY sequence of up to 3 (quick) / 4 (thorough) operations over a 15-symbol alphabet (ADD with two payloads, REPLACE with two payloads, DELETE, for next-hop 1, group 1 and one IPv4 prefix) in both forward-reference modes, and over a second 15-symbol alphabet (next-hop and group of VRF1, an MPLS label of the default instance pointing at VRF1's group or - unnamed - at its own, an IPv6 prefix, a flush of VRF1, a flush of everything) - exhaustive for those bounded spaces; plus hand-over scripts over real Modify sessions (a primary leaves operations held, another session becomes primary with an equal or higher id and programs on; full state vs model after every batch). Non-trivial = history leaves entries or held operations; distinct = by full history text", 100, false)
 }
 
 // alphabet: ADD (2 payloads) / REPLACE (2 payloads) / DELETE for each of NH 1, NHG 1 and one
 // IPv4 prefix of the default network instance.
-func alphabet() []func(id uint64) gen.OpSpec {
+// sym is one symbol of an exhaustive alphabet: an operation (or a flush) applied to the
+// real RIB and the model in lock step.
+type sym func(x *mon.RIBMon, id uint64) []string
+
+func opSym(f func(id uint64) gen.OpSpec) sym {
+	return func(x *mon.RIBMon, id uint64) []string {
+		_, probs := x.Do(f(id))
+		return probs
+	}
+}
+
+// alphabet2: the other entry kinds and the cross-instance reference, with flushes as
+// symbols: next-hop 1 and group 1 of VRF1, an MPLS label of the default instance that
+// points at VRF1's group (or, unnamed, at its own instance's group 1, which never exists),
+// an IPv6 prefix of VRF1, a flush of VRF1 and a flush of everything.
+func alphabet2() []sym {
+	A, R, D := spb.AFTOperation_ADD, spb.AFTOperation_REPLACE, spb.AFTOperation_DELETE
+	nh := func(kind spb.AFTOperation_Operation, mac string) sym {
+		return opSym(func(id uint64) gen.OpSpec {
+			return gen.OpSpec{NI: "VRF1", Op: &spb.AFTOperation{Id: id, NetworkInstance: "VRF1", Op: kind, Entry: &spb.AFTOperation_NextHop{NextHop: &aftpb.Afts_NextHopKey{Index: 1, NextHop: &aftpb.Afts_NextHop{MacAddress: gen.S(mac)}}}}}
+		})
+	}
+	nhg := func(kind spb.AFTOperation_Operation, w uint64) sym {
+		return opSym(func(id uint64) gen.OpSpec {
+			p := &aftpb.Afts_NextHopGroup{NextHop: []*aftpb.Afts_NextHopGroup_NextHopKey{{Index: 1, NextHop: &aftpb.Afts_NextHopGroup_NextHop{Weight: gen.U(w)}}}}
+			return gen.OpSpec{NI: "VRF1", Op: &spb.AFTOperation{Id: id, NetworkInstance: "VRF1", Op: kind, Entry: &spb.AFTOperation_NextHopGroup{NextHopGroup: &aftpb.Afts_NextHopGroupKey{Id: 1, NextHopGroup: p}}}}
+		})
+	}
+	mpls := func(kind spb.AFTOperation_Operation, named bool) sym {
+		return opSym(func(id uint64) gen.OpSpec {
+			p := &aftpb.Afts_LabelEntry{NextHopGroup: gen.U(1)}
+			if named {
+				p.NextHopGroupNetworkInstance = gen.S("VRF1")
+			}
+			return gen.OpSpec{NI: "DEFAULT", Op: &spb.AFTOperation{Id: id, NetworkInstance: "DEFAULT", Op: kind, Entry: &spb.AFTOperation_Mpls{Mpls: &aftpb.Afts_LabelEntryKey{Label: &aftpb.Afts_LabelEntryKey_LabelUint64{LabelUint64: 100}, LabelEntry: p}}}}
+		})
+	}
+	v6 := func(kind spb.AFTOperation_Operation, md bool) sym {
+		return opSym(func(id uint64) gen.OpSpec {
+			p := &aftpb.Afts_Ipv6Entry{NextHopGroup: gen.U(1)}
+			if md {
+				p.EntryMetadata = &wpb.BytesValue{Value: []byte{9}}
+			}
+			return gen.OpSpec{NI: "VRF1", Op: &spb.AFTOperation{Id: id, NetworkInstance: "VRF1", Op: kind, Entry: &spb.AFTOperation_Ipv6{Ipv6: &aftpb.Afts_Ipv6EntryKey{Prefix: "2001:db8::/32", Ipv6Entry: p}}}}
+		})
+	}
+	flush := func(nis ...string) sym {
+		return func(x *mon.RIBMon, _ uint64) []string { return x.Flush(nis) }
+	}
+	return []sym{
+		nh(A, "00:11:22:33:44:55"), nh(D, ""),
+		nhg(A, 1), nhg(R, 2), nhg(D, 1),
+		mpls(A, true), mpls(A, false), mpls(R, true), mpls(D, false),
+		v6(A, true), v6(A, false), v6(R, false), v6(D, false),
+		flush("VRF1"), flush("DEFAULT", "VRF1", "VRF2"),
+	}
+}
+
+func alphabet() []sym {
 	ni := "DEFAULT"
 	nh := func(kind spb.AFTOperation_Operation, ip string) func(uint64) gen.OpSpec {
 		return func(id uint64) gen.OpSpec {
@@ -278,11 +341,15 @@ func alphabet() []func(id uint64) gen.OpSpec {
 		}
 	}
 	A, R, D := spb.AFTOperation_ADD, spb.AFTOperation_REPLACE, spb.AFTOperation_DELETE
-	return []func(uint64) gen.OpSpec{
+	var out []sym
+	for _, f := range []func(uint64) gen.OpSpec{
 		nh(A, "192.0.2.1"), nh(A, "192.0.2.2"), nh(R, "192.0.2.1"), nh(R, "192.0.2.2"), nh(D, "192.0.2.1"),
 		nhg(A, 1, true), nhg(A, 2, false), nhg(R, 1, true), nhg(R, 2, false), nhg(D, 1, false),
 		v4(A, true), v4(A, false), v4(R, true), v4(R, false), v4(D, false),
+	} {
+		out = append(out, opSym(f))
 	}
+	return out
 }
 
 func opTable(s gen.OpSpec) string {
